@@ -28,7 +28,7 @@ ORACLES = {
         'lowering::lower_statement(CompoundAssignment)': ['incan::emit_division'], 'lowering::lower_expr(Binary)': ['incan::emit_division'],
         '*': ['core::py_mod_i64_impl', 'core::py_floor_div_i64_impl', 'stdlib::py_mod_i64', 'stdlib::py_floor_div_i64', 'stdlib::py_mod',
               'stdlib::py_floor_div', 'stdlib::py_div', 'core::py_mod_f64_impl', 'stdlib::py_mod_f64', 'stdlib::py_floor_div_f64',
-              'incan::binop_plan', 'incan::emit_division'],
+              'incan::binop_plan', 'incan::emit_division', 'incan::fstring_operands'],
     },
     'C05': {
         'core::str_len': ['core::str_char_at', 'core::str_slice'],
@@ -65,7 +65,7 @@ ORACLES = {
         'lowering::lower_statement(CompoundAssignment)': ['incan::emit_promotion', 'incan::compound_assign'],
         'lowering::lower_expr(Binary)': ['incan::emit_promotion', 'incan::static_type'],
         'checker::types_compatible(int/float)': ['incan::static_type'], 'checker::check_return': ['incan::static_type'], 'checker::eval_const_expr(arithmetic)': ['incan::static_type'], 'checker::check_assignment': ['incan::static_type'],
-        '*': ['core::policy', 'incan::exponent_kind', 'incan::binop_plan', 'incan::static_type', 'incan::emit_promotion', 'incan::static_type_nested', 'incan::compound_assign', 'incan::emit_division', 'incan::static_type_sources', 'incan::multifile_promotion'],
+        '*': ['core::policy', 'incan::exponent_kind', 'incan::binop_plan', 'incan::static_type', 'incan::emit_promotion', 'incan::static_type_nested', 'incan::compound_assign', 'incan::emit_division', 'incan::static_type_sources', 'incan::multifile_promotion', 'incan::fstring_operands'],
     },
     'C19': {
         'lsp::offset_to_position': ['lsp::offset_to_position', 'lsp::round_trip', 'lsp::monotone', 'lsp::span_to_range'],
